@@ -249,3 +249,91 @@ func R1IndexSentinel(c *Ctx) {
 	}
 	c.R.Extra["R1-index-sentinel.sites"] = n
 }
+
+// R1DownScanFirst — a downward scan of a slice reaches its first element.
+func R1DownScanFirst(c *Ctx) {
+	const rule = "R1-downscan-first"
+	c.R.Rule(rule, "a loop that walks a slice from len-1 downwards and only ever looks at x[i] continues while i >= 0: a loop condition i > 0 (with no use of x[i-1] in the body) never examines element 0, so a search or clean-up silently misses the oldest entry", 0)
+	n := 0
+	for _, fn := range c.P.ModuleFuncs(NonYaotl) {
+		for _, l := range naturalLoops(fn) {
+			h := l.header
+			iff, ok := h.Instrs[len(h.Instrs)-1].(*ssa.If)
+			if !ok {
+				continue
+			}
+			cmp, ok := iff.Cond.(*ssa.BinOp)
+			if !ok {
+				continue
+			}
+			// i > 0  or  0 < i
+			var iv ssa.Value
+			switch {
+			case cmp.Op == token.GTR:
+				if k, isC := ConstInt(cmp.Y); isC && k == 0 {
+					iv = cmp.X
+				}
+			case cmp.Op == token.LSS:
+				if k, isC := ConstInt(cmp.X); isC && k == 0 {
+					iv = cmp.Y
+				}
+			}
+			ph, ok := iv.(*ssa.Phi)
+			if !ok || ph.Block() != h {
+				continue
+			}
+			// init len(x)-1, step -1
+			var xs ssa.Value
+			down := false
+			for i, e := range ph.Edges {
+				if l.body[h.Preds[i]] {
+					if bo, ok := e.(*ssa.BinOp); ok && bo.Op == token.SUB && bo.X == ssa.Value(ph) {
+						if k, isC := ConstInt(bo.Y); isC && k == 1 {
+							down = true
+						}
+					}
+					continue
+				}
+				if bo, ok := e.(*ssa.BinOp); ok && bo.Op == token.SUB {
+					if k, isC := ConstInt(bo.Y); isC && k == 1 {
+						if arg, isLen := isLenCall(bo.X); isLen {
+							xs = arg
+						}
+					}
+				}
+			}
+			if !down || xs == nil {
+				continue
+			}
+			n++
+			// uses of the cursor as an index: x[i] and x[i-1]
+			usesI, usesPrev := false, false
+			for b := range l.body {
+				for _, in := range b.Instrs {
+					var idx ssa.Value
+					switch u := in.(type) {
+					case *ssa.IndexAddr:
+						idx = u.Index
+					case *ssa.Index:
+						idx = u.Index
+					default:
+						continue
+					}
+					if idx == ssa.Value(ph) {
+						usesI = true
+					}
+					if bo, ok := idx.(*ssa.BinOp); ok && bo.Op == token.SUB && bo.X == ssa.Value(ph) {
+						usesPrev = true
+					}
+				}
+			}
+			construct := "downward scan from len-1 while i > 0"
+			if usesI && !usesPrev {
+				c.R.Bad(rule, FuncShort(fn), construct, c.pos(cmp.Pos()), "the scan stops before index 0 and never looks at x[i-1]: the first element is never examined")
+			} else {
+				c.R.Ok(rule, FuncShort(fn), construct, c.pos(cmp.Pos()), "pairs x[i] with x[i-1], or does not index by the cursor", true)
+			}
+		}
+	}
+	c.R.Extra["R1-downscan-first.loops"] = n
+}
